@@ -748,6 +748,8 @@ class Interp:
             return PyList(items) if isinstance(a, PyList) else tuple(items)
         if isinstance(a, Obj) or isinstance(b, Obj):
             return self.obj_binop(ctx, op, a, b)
+        if isinstance(a, arrops.Gather) or isinstance(b, arrops.Gather):
+            return arrops.gather_binop(ctx, op, a, b)
         if isinstance(a, (Arr, PyList, tuple)) or isinstance(b, (Arr, PyList, tuple)):
             return arrops.binop(ctx, op, a, b)
         return self.scalar_binop(ctx, op, a, b)
@@ -852,6 +854,8 @@ class Interp:
                 r = self.call_function(ctx, m, [a, b], {})
                 return r if op == 'Eq' else S.not_(self.truthy(ctx, r))
             return self.identical(a, b) if op == 'Eq' else not self.identical(a, b)
+        if isinstance(a, arrops.Gather) or isinstance(b, arrops.Gather):
+            return arrops.gather_binop(ctx, op, a, b)
         if isinstance(a, Arr) or isinstance(b, Arr):
             return arrops.binop(ctx, op, a, b)
         if isinstance(a, (tuple, PyList)) or isinstance(b, (tuple, PyList)):
